@@ -874,8 +874,11 @@ def formula_grammar(table):
         return formula
     grouped_mixture = grouped_mixture.setParseAction(convert_mixture)
 
-    mixture << (compound | grouped_mixture)
-    formula = (compound | ungrouped_mixture | grouped_mixture)
+    mixture << (grouped_mixture | compound)
+    # Try mixtures first (here and in *mixture* above): a leading quantity such
+    # as "2L" would otherwise be read by the compound parser as a count followed
+    # by the unknown element L.
+    formula = (ungrouped_mixture | compound | grouped_mixture)
     grammar = Optional(formula, default=Formula()) + StringEnd()
 
     grammar.setName('Chemical Formula')
